@@ -18,8 +18,10 @@ func init() {
 	sim.Register(&sim.Check{
 		ID: "C37", Title: "Round state transitions are monotone and never deadlock", World: "threads",
 		Gen: genC37, Exec: execC37, Prepare: prepareFn(false),
-		Quick:       sim.Budget{Runs: 3000, WallS: 40},
-		Thorough:    sim.Budget{Runs: 1200000, WallS: 780},
+		Quick:    sim.Budget{Runs: 3000, WallS: 150},
+		Thorough: sim.Budget{Runs: 1200000, WallS: 780},
+		// WallS only caps the batch: on an idle machine the quick batch takes 10-25 s plus 4 s (plain) / 15 s (-race) for the
+		// instrumented build; the driver starts the clock before Prepare, so the cap leaves room for a slow build under load
 		RunsPerProc: 200,
 		LevelText: "seeded search over sequences and interleavings of round operations (3-6 goroutines on one real round.Round); a monitor samples the round's phase, timeout count, " +
 			"finalizing state and VRF shares at every scheduling point and attributes each change to the operation that made it; a logical deadlock detector turns " +
